@@ -174,6 +174,72 @@ fn dec_case(pk: &Pk, bytes: &[u8], expect: Option<(&[V], usize)>, class: &str) -
     Case { request: format!("c09.dec {} {}", pk.name, hex(bytes)), observed, oracle, class: format!("{class}:{}", pk.name) }
 }
 
+// ---- compound text components (network NBT): a tree, the JSON text built from it, the real encoder's bytes
+
+#[derive(Clone)]
+enum Nbt { S(String), B(bool), C(Vec<(String, Nbt)>) }
+
+fn gen_nbt(rng: &mut Rng, depth: u32) -> Nbt {
+    // keys in ascending byte order and distinct: serde_json's map is ordered by key unless built with preserve_order —
+    // either way the entries then come out in this order
+    let pool = ["", "bold", "color", "hover", "italic", "text", "translate", "with", "é", "日本"];
+    let n = rng.below(if depth == 0 { 5 } else { 3 }) as usize;
+    let mut keys: Vec<&str> = vec![];
+    while keys.len() < n { let k = *rng.pick(&pool); if !keys.contains(&k) { keys.push(k); } }
+    keys.sort_by(|a, b| a.as_bytes().cmp(b.as_bytes()));
+    Nbt::C(keys.into_iter().map(|k| (k.to_string(), match rng.below(if depth < 2 { 5 } else { 4 }) {
+        // strings within the Basic Multilingual Plane and without NUL: beyond that NBT's modified UTF-8 differs from UTF-8 (not modelled)
+        0 | 1 => Nbt::S(rng.pick(&["", "Disconnected", "No available server for you.", "line\nbreak \"quoted\" back\\slash", "ünï ✓ 日本", "{\"text\":\"nested-looking\"}", "§cred"]).to_string()),
+        2 => Nbt::S("x".repeat(*rng.pick(&[1usize, 127, 128, 255, 256, 300]))),
+        3 => Nbt::B(rng.chance(1, 2)),
+        _ => gen_nbt(rng, depth + 1),
+    })).collect())
+}
+
+fn nbt_json(n: &Nbt) -> serde_json::Value {
+    match n { Nbt::S(s) => serde_json::Value::String(s.clone()), Nbt::B(b) => serde_json::Value::Bool(*b),
+        Nbt::C(es) => serde_json::Value::Object(es.iter().map(|(k, v)| (k.clone(), nbt_json(v))).collect()) }
+}
+/// what reading the bytes back can yield: NBT has no boolean, `true`/`false` travel as the bytes 1/0 (as in the game itself)
+fn nbt_json_back(n: &Nbt) -> serde_json::Value {
+    match n { Nbt::S(s) => serde_json::Value::String(s.clone()), Nbt::B(b) => serde_json::Value::from(u8::from(*b)),
+        Nbt::C(es) => serde_json::Value::Object(es.iter().map(|(k, v)| (k.clone(), nbt_json_back(v))).collect()) }
+}
+fn nbt_tok(n: &Nbt) -> String {
+    match n { Nbt::S(s) => format!("S {}", hex(s.as_bytes())), Nbt::B(b) => format!("B {}", u8::from(*b)),
+        Nbt::C(es) => format!("C {}{}", es.len(), es.iter().map(|(k, v)| format!(" {} {}", hex(k.as_bytes()), nbt_tok(v))).collect::<String>()) }
+}
+/// independent reference: tag, then for a compound `entries ‖ 0x00`; an entry is tag ‖ u16 name length ‖ name ‖ payload; no root name
+fn nbt_ref(n: &Nbt, out: &mut Vec<u8>) {
+    fn tag(n: &Nbt) -> u8 { match n { Nbt::S(_) => 8, Nbt::B(_) => 1, Nbt::C(_) => 10 } }
+    fn payload(n: &Nbt, out: &mut Vec<u8>) {
+        match n { Nbt::S(s) => { out.extend((s.len() as u16).to_be_bytes()); out.extend(s.as_bytes()); } Nbt::B(b) => out.push(u8::from(*b)),
+            Nbt::C(es) => { for (k, v) in es { out.push(tag(v)); out.extend((k.len() as u16).to_be_bytes()); out.extend(k.as_bytes()); payload(v, out); } out.push(0); } }
+    }
+    out.push(tag(n)); payload(n, out);
+}
+
+fn nbt_case(rng: &mut Rng) -> Case {
+    let tree = gen_nbt(rng, 0);
+    let text = serde_json::to_string(&nbt_json(&tree)).unwrap();
+    let real = encode_real("configuration.Disconnect", &[V::B(text.clone().into_bytes())]);
+    let mut reference = vec![]; nbt_ref(&tree, &mut reference);
+    let (observed, oracle) = match &real {
+        Ok((id, b)) => { let mut why = vec![];
+            if *id != 2 { why.push(format!("packet id {id} != protocol id 2")); }
+            if *b != reference { why.push(format!("compound text component {text}: layout {} != network NBT {}", hex(b), hex(&reference))); }
+            // and back: the reader yields a text that is the same JSON value
+            match decode_real("configuration.Disconnect", b) {
+                Ok((vals, 0)) => match vals.first() { Some(V::B(t)) => { if serde_json::from_slice::<serde_json::Value>(t).ok() != Some(nbt_json_back(&tree)) { why.push(format!("decoded back as {}", String::from_utf8_lossy(t))); } } _ => why.push("decoded to something else than a text".into()) },
+                Ok((_, rest)) => why.push(format!("decoding left {rest} bytes")),
+                Err(e) => why.push(format!("the reader refuses the writer's bytes: {e}")),
+            }
+            (format!("id={id} {}", hex(b)), if why.is_empty() { None } else { Some(why.join("; ")) }) }
+        Err(e) => (format!("err {e}"), Some(format!("encoder failed on {text}: {e}"))),
+    };
+    Case { request: format!("c09.nbt {}", nbt_tok(&tree)), observed, oracle, class: "enc:compound-text".into() }
+}
+
 pub fn run(a: &Args) {
     let mut rng = Rng::new(a.seed);
     let mut cases = vec![];
@@ -207,6 +273,8 @@ pub fn run(a: &Args) {
         cases.push(unvar_case(false, &b));
         cases.push(unvar_case(true, &b));
     }
+    // compound text components (every message of the shipped localisation is one)
+    for _ in 0..(a.cases / 20).max(50) { cases.push(nbt_case(&mut rng)); }
     // packets: encode boundary-dense values, decode them back (with and without trailing bytes)
     let per = (a.cases / PACKETS.len()).max(4);
     for pk in PACKETS {
